@@ -10,6 +10,7 @@ def natural(d):
     return (a, int(b))
 NOT_A_VIOLATION = {
     'C18-5': 'judged not to break C18 at its stated precision (one frame after a seek); see 12.1',
+    'C04-6': 'judged not decidable by C04 as stated: the order in which a loop-region change and a seek written in the same period take effect is not part of the property (per-kind mailboxes; either order is some sequential order of the two calls); see 12.1',
 }
 LIMIT = {
     'C07-4': 'not caught: needs a switch between two loads inside one function (yield-point granularity, section 7)',
